@@ -45,8 +45,8 @@ fn apply_inner<NN: NnBounds>(mut nn: ArrayViewMut1<'_, NN>, op: &Op) {
         }
         "select_many" => {
             let idx: Vec<u64> = op.idx.iter().map(|&i| i % len as u64).collect();
-            let (arr, _) = usize_list(&idx, 0);
-            let _ = nn.get_many_from_sorted_mut(&arr);
+            let arr = usize_list(&idx, op.form);
+            let _ = nn.get_many_from_sorted_mut(&arr.view());
         }
         "quantile" => {
             let q = n64(op.qs.first().copied().unwrap_or(0.5).clamp(0.0, 1.0));
@@ -208,9 +208,12 @@ where
         return;
     }
     let lanes = w.lanes(op.axis);
-    let n = lanes.first().map(|l| l.len()).unwrap_or(0);
+    let n = w.view_shape()[op.axis];
     if n == 0 {
         return;
+    }
+    if lanes.is_empty() {
+        cx.stats.probe("quantile_of_array_without_lanes");
     }
     let ty = scn.elem;
     let before = w.snapshot();
@@ -252,11 +255,12 @@ where
     }
     // the plain operation on each lane with the missing values deleted
     let mut plain_panicked = false;
+    let res_flat: Option<Vec<T>> = res.as_ref().map(|r| r.iter().cloned().collect());
     for (l, lane) in lanes.iter().enumerate() {
         let pre: Vec<i64> = lane.iter().map(|&c| before[c]).collect();
         note_missing(cx, ty, &pre);
         let kept = filtered(ty, &pre);
-        let got: Option<T> = res.as_ref().map(|r| r.iter().nth(l).unwrap().clone());
+        let got: Option<T> = res_flat.as_ref().map(|r| r[l].clone());
         if kept.is_empty() {
             if let Some(g) = &got {
                 if !g.missing() {
@@ -366,11 +370,12 @@ where
                     cx.fail("skipnan-map-shape", format!("map_axis_skipnan_mut returned shape {:?}, expected {:?}", r.shape(), want_shape));
                     return;
                 }
+                let r_flat: Vec<&Vec<i64>> = r.iter().collect();
                 for (l, lane) in lanes.iter().enumerate() {
                     let pre: Vec<i64> = lane.iter().map(|&c| before[c]).collect();
                     note_missing(cx, ty, &pre);
                     let want = sorted_copy(filtered(ty, &pre));
-                    let seen = sorted_copy(r.iter().nth(l).unwrap().clone());
+                    let seen = sorted_copy(r_flat[l].clone());
                     if seen != want {
                         cx.fail(
                             "skipnan-lane-contents",
